@@ -50,6 +50,7 @@ class State:
         self.havoc_n = 0
         self.epoch = {}       # key prefix -> n  (havoced prefixes)
         self.trace = []
+        self.variants = []    # (inspected value term, variant names, is / is-none-of)
 
     def fresh(self):
         self.havoc_n += 1
@@ -135,6 +136,15 @@ class SymPath:
                 if truth is not None:
                     st.guards.append((x[1], x[2], x[3], truth))
             st.trace.append(('switch', bb, x, taken or 'otherwise'))
+            if x[0] == 'discr' and self.fx is not None:
+                # which variant(s) the path assumes for the inspected value
+                allv = [a[0] for a in t['arms']]
+                if taken:
+                    names = [self.fx.variant_name(x[2], v) for v in taken]
+                    st.variants.append((x[1], tuple(n for n in names if n), True))
+                else:
+                    names = [self.fx.variant_name(x[2], v) for v in allv]
+                    st.variants.append((x[1], tuple(n for n in names if n), False))
         elif k == 'assert':
             c = self.operand(st, t['cond'])
             st.asserts.append((c, t['expected']))
@@ -178,6 +188,13 @@ class SymPath:
     def read_key(self, st, key):
         if key in st.cells:
             return st.cells[key]
+        # finer cells stored under this key: the aggregate read is the old value with those parts replaced
+        sub = tuple(sorted(((kk[len(key):], v) for kk, v in st.cells.items() if len(kk) > len(key) and kk[:len(key)] == key), key=repr))
+        if sub:
+            return ('upd', self._read_plain(st, key), sub)
+        return self._read_plain(st, key)
+
+    def _read_plain(self, st, key):
         # a stored aggregate / tuple covering this key
         for n in range(len(key) - 1, 0, -1):
             pre = key[:n]
@@ -257,7 +274,7 @@ class SymPath:
         if r == 'un':
             return ('un', rv['op'], self.operand(st, rv['a']))
         if r == 'discr':
-            return ('discr', self.read_key(st, self.place_key(st, rv['pl'])))
+            return ('discr', self.read_key(st, self.place_key(st, rv['pl'])), rv.get('ty') or '')
         if r == 'agg':
             ops = tuple(self.operand(st, o) for o in rv['ops'])
             return ('agg', rv.get('adt') or rv.get('kind'), rv.get('variant'), ops, tuple(rv.get('fields') or ()))
